@@ -38,6 +38,9 @@ pub struct Case {
     /// (module kind, n): the n-th call of that kind is rejected by the shim
     pub module_faults: Vec<(String, u32)>,
     pub unbonding_secs: u64,
+    /// what answers behind the recorders of custom / ibc / gov / stargate (see Model::module_cfg)
+    #[serde(default)]
+    pub module_cfg: [u8; 4],
     pub ops: Vec<Op>,
 }
 
@@ -54,6 +57,10 @@ pub struct Sim {
     pub any_fault: bool,
     /// digest of everything observed so far, recorded after every step (twin comparison)
     pub step_digs: Vec<u64>,
+    /// handle on the repo's CachingCustomHandler state, when it is plugged in
+    pub caching: Option<cw_multi_test::custom_handler::CachingCustomHandlerState<SimMsg, SimQuery>>,
+    pub custom_execs_seen: Vec<String>,
+    pub custom_queries_seen: Vec<String>,
 }
 
 fn lp(ns: &[u8]) -> Vec<u8> {
@@ -147,6 +154,33 @@ impl Sim {
                 }
             }
         }
+        model.module_cfg = case.module_cfg;
+        let mut caching = None;
+        let custom_inner = match case.module_cfg[0] {
+            1 => CustomInner::Accepting(cw_multi_test::AcceptingModule::new()),
+            2 => CustomInner::Failing(cw_multi_test::FailingModule::new()),
+            3 => {
+                let h = cw_multi_test::custom_handler::CachingCustomHandler::<SimMsg, SimQuery>::new();
+                caching = Some(h.state());
+                CustomInner::Caching(h)
+            }
+            _ => CustomInner::Stub,
+        };
+        let ibc_inner = match case.module_cfg[1] {
+            1 | 3 => IbcInner::Accepting(cw_multi_test::IbcAcceptingModule::new()),
+            2 => IbcInner::Failing(cw_multi_test::IbcFailingModule::new()),
+            _ => IbcInner::Stub,
+        };
+        let gov_inner = match case.module_cfg[2] {
+            1 | 3 => GovInner::Accepting(cw_multi_test::GovAcceptingModule::new()),
+            2 => GovInner::Failing(cw_multi_test::GovFailingModule::new()),
+            _ => GovInner::Stub,
+        };
+        let sg_inner = match case.module_cfg[3] {
+            1 | 3 => StargateInner::Accepting(cw_multi_test::StargateAccepting),
+            2 => StargateInner::Failing(cw_multi_test::StargateFailing),
+            _ => StargateInner::Stub,
+        };
         let init_bank = model.s.bank.clone();
         let unbonding = case.unbonding_secs;
         let validators = names.validators.clone();
@@ -154,12 +188,12 @@ impl Sim {
             .with_api(api)
             .with_storage(SimStorage::new())
             .with_bank(RecBank { inner: BankKeeper::new(), world: world.clone() })
-            .with_custom(RecCustom { world: world.clone() })
+            .with_custom(RecCustom { world: world.clone(), inner: custom_inner })
             .with_staking(RecStaking { inner: StakeKeeper::new(), world: world.clone() })
             .with_distribution(RecDistr { inner: DistributionKeeper::new(), world: world.clone() })
-            .with_ibc(RecIbc { world: world.clone() })
-            .with_gov(RecGov { world: world.clone() })
-            .with_stargate(RecStargate { world: world.clone() })
+            .with_ibc(RecIbc { world: world.clone(), inner: ibc_inner })
+            .with_gov(RecGov { world: world.clone(), inner: gov_inner })
+            .with_stargate(RecStargate { world: world.clone(), inner: sg_inner })
             .build(|router, api, storage| {
                 for (a, m) in &init_bank {
                     let coins: Vec<_> = m.iter().map(|(d, x)| cosmwasm_std::coin(*x, d.clone())).collect();
@@ -190,6 +224,9 @@ impl Sim {
             tree_sigs: Fnv::new(),
             any_fault: false,
             step_digs: vec![],
+            caching,
+            custom_execs_seen: vec![],
+            custom_queries_seen: vec![],
         }
     }
 
@@ -302,6 +339,7 @@ impl Sim {
                 self.v(&["C17", "C10"], "module_call_mismatch", d);
             }
         }
+        self.check_caching(what, &real_calls);
         // ---- outcome
         match (&real, &mres) {
             (RealOut::Ok(rs), Ok(ms)) => {
@@ -366,6 +404,29 @@ impl Sim {
             self.compare_state(what, before, &model_before);
         }
         self.viol.is_empty()
+    }
+
+    /// The repo's CachingCustomHandler (when plugged in) saw exactly the custom messages and
+    /// queries that passed the recorder in front of it, in order.
+    fn check_caching(&mut self, what: &str, real_calls: &[ModCall]) {
+        for c in real_calls {
+            if c.kind == "custom" {
+                self.custom_execs_seen.push(c.payload.clone());
+            } else if c.kind == "custom.query" {
+                self.custom_queries_seen.push(c.payload.clone());
+            }
+        }
+        let mut bad = None;
+        if let Some(st) = &self.caching {
+            let execs: Vec<String> = st.execs().iter().map(|m| m.tag.clone()).collect();
+            let queries: Vec<String> = st.queries().iter().map(|m| m.tag.clone()).collect();
+            if execs != self.custom_execs_seen || queries != self.custom_queries_seen {
+                bad = Some(format!("{}: CachingCustomHandler recorded execs {:?} / queries {:?}, the recorder in front of it saw {:?} / {:?}", what, execs, queries, self.custom_execs_seen, self.custom_queries_seen));
+            }
+        }
+        if let Some(d) = bad {
+            self.v(&["C17"], "caching_handler", d);
+        }
     }
 
     fn compare_trace(&mut self, what: &str, real: &[TraceRec]) {
@@ -1104,6 +1165,7 @@ impl Sim {
         if real_calls != self.model.module_calls {
             self.v(&["C17", "C10"], "module_call_mismatch", format!("queries: module calls {} expected {}", real_calls.len(), self.model.module_calls.len()));
         }
+        self.check_caching("App-level queries", &real_calls);
         let _ = self.world.take_trace();
         // accessor agreement: contract_storage(addr) get/range == model
         let empty = BTreeMap::new();
